@@ -7,8 +7,11 @@
 (*   2. the block protocol of parser.rs TagBlock and of every stdlib block *)
 (*      (shared cursor, end tag without arguments, else / elsif / when     *)
 (*      handled by the enclosing block only), on top of LiquidArgs.        *)
-(* raw and comment are the business of LiquidText; a template that uses    *)
-(* them is `unsupported` here.                                             *)
+(* raw takes the source text between its tags (TagBlock::escape_liquid);   *)
+(* comment skips elements but still lets every tag inside parse itself,    *)
+(* ignoring the error - a block opener with a valid header inside a        *)
+(* comment therefore moves the shared cursor, which the properties leave   *)
+(* unspecified: such templates are `unsupported` here.                     *)
 (***************************************************************************)
 EXTENDS LiquidArgs
 
@@ -21,13 +24,13 @@ TagElem(t, p) ==
   LET q == SkipWS(t, p)
       g == Tag(t, IF StartsWith(t, q, "{%-") THEN q ELSE p)
   IN IF ~Ok(g) THEN Fail
-     ELSE [k |-> "tag", name |-> g.name, toks |-> g.toks,
+     ELSE [k |-> "tag", name |-> g.name, toks |-> g.toks, b |-> p, trims |-> StartsWith(t, q, "{%-"),
            e |-> IF SubSeq(t, g.e - 3, g.e - 1) = "-%}" THEN SkipWS(t, g.e) ELSE g.e]
 ExprElem(t, p) ==
   LET q == SkipWS(t, p)
       x == Expression(t, IF StartsWith(t, q, "{{-") THEN q ELSE p)
   IN IF ~Ok(x) THEN Fail
-     ELSE [k |-> "expr", chain |-> x.chain,
+     ELSE [k |-> "expr", chain |-> x.chain, b |-> p,
            e |-> IF SubSeq(t, x.e - 3, x.e - 1) = "-}}" THEN SkipWS(t, x.e) ELSE x.e]
 \* Raw = @{ (!(TagStart | ExpressionStart) ~ ANY)+ }
 RECURSIVE RawEnd(_, _)
@@ -42,8 +45,8 @@ Elements(t, p) ==
        ELSE LET g == TagElem(t, p) IN
             IF Ok(g) THEN <<g>> \o Elements(t, g.e)
             ELSE LET r == RawEnd(t, p) IN
-                 IF r > p THEN <<[k |-> "raw", s |-> SubSeq(t, p, r - 1), e |-> r]>> \o Elements(t, r)
-                 ELSE <<[k |-> "invalid", e |-> p + 1]>> \o Elements(t, p + 1)
+                 IF r > p THEN <<[k |-> "raw", s |-> SubSeq(t, p, r - 1), b |-> p, e |-> r]>> \o Elements(t, r)
+                 ELSE <<[k |-> "invalid", b |-> p, e |-> p + 1]>> \o Elements(t, p + 1)
 
 (* ------------------------------ block protocol ------------------------ *)
 Bad == [ok |-> FALSE, unsup |-> FALSE]
@@ -52,88 +55,119 @@ IsTag(els, i, names) == i <= Len(els) /\ els[i].k = "tag" /\ els[i].name \in nam
 \* TagBlock::next: the end tag must not carry arguments
 EndOk(els, i) == els[i].toks = <<>>
 
-\* ParseSeq(els, i, stops, top): statements from element i up to (not including) a tag named in `stops`;
+\* ParseSeq(t, els, i, stops, top): statements from element i up to (not including) a tag named in `stops`;
 \*   at the end of the input: fine at top level, `Unclosed block` inside a block
-\* ParseStmt(els, i): the statement starting at element i -> [ok, sts (0 or 1 statements), i = next element, filt]
-RECURSIVE ParseSeq(_, _, _, _), ParseStmt(_, _), ParseIf(_, _, _), ParseWhens(_, _, _, _, _)
-ParseSeq(els, i, stops, top) ==
+\* ParseStmt(t, els, i): the statement starting at element i -> [ok, sts (0 or 1 statements), i = next element, filt]
+RECURSIVE ParseSeq(_, _, _, _, _), ParseStmt(_, _, _), ParseIf(_, _, _, _), ParseWhens(_, _, _, _, _, _), ParseComment(_, _, _)
+ParseSeq(t, els, i, stops, top) ==
   IF i > Len(els) THEN (IF top THEN [ok |-> TRUE, body |-> <<>>, i |-> i, stop |-> "", filt |-> FALSE] ELSE Bad)
   ELSE IF IsTag(els, i, stops) THEN [ok |-> TRUE, body |-> <<>>, i |-> i, stop |-> els[i].name, filt |-> FALSE]
-  ELSE LET s == ParseStmt(els, i) IN
+  ELSE LET s == ParseStmt(t, els, i) IN
        IF ~s.ok THEN s
-       ELSE LET r == ParseSeq(els, s.i, stops, top) IN
+       ELSE LET r == ParseSeq(t, els, s.i, stops, top) IN
             IF ~r.ok THEN r ELSE [ok |-> TRUE, body |-> s.sts \o r.body, i |-> r.i, stop |-> r.stop, filt |-> s.filt \/ r.filt]
 
 One(st, i, filt) == [ok |-> TRUE, sts |-> <<st>>, i |-> i, filt |-> filt]
 
 \* if / elsif: the tag at i is the header; consumes up to and including {% endif %}
-ParseIf(els, i, kind) ==
+ParseIf(t, els, i, kind) ==
   LET h == ArgsCond(els[i].toks, kind) IN
   IF ~h.ok THEN Bad
-  ELSE LET a == ParseSeq(els, i + 1, IF kind = "if" THEN {"endif", "else", "elsif"} ELSE {"endunless", "else"}, FALSE) IN
+  ELSE LET a == ParseSeq(t, els, i + 1, IF kind = "if" THEN {"endif", "else", "elsif"} ELSE {"endunless", "else"}, FALSE) IN
        IF ~a.ok THEN a
        ELSE IF a.stop \in {"endif", "endunless"}
             THEN (IF EndOk(els, a.i) THEN One(h.st @@ [then |-> a.body, else |-> <<>>], a.i + 1, a.filt) ELSE Bad)
        ELSE IF a.stop = "else"                          \* the arguments of this else are not looked at
-            THEN LET b == ParseSeq(els, a.i + 1, IF kind = "if" THEN {"endif"} ELSE {"endunless"}, FALSE) IN
+            THEN LET b == ParseSeq(t, els, a.i + 1, IF kind = "if" THEN {"endif"} ELSE {"endunless"}, FALSE) IN
                  IF ~b.ok THEN b
                  ELSE IF EndOk(els, b.i) THEN One(h.st @@ [then |-> a.body, else |-> b.body], b.i + 1, a.filt \/ b.filt) ELSE Bad
-       ELSE LET n == ParseIf(els, a.i, "if") IN             \* elsif: a nested if that shares the endif
+       ELSE LET n == ParseIf(t, els, a.i, "if") IN             \* elsif: a nested if that shares the endif
             IF ~n.ok THEN n ELSE One(h.st @@ [then |-> a.body, else |-> n.sts], n.i, a.filt \/ n.filt)
 
 \* case: arms collected from the tag at i (a when / else / endcase); what precedes the first when is parsed and dropped
-ParseWhens(els, i, x, whens, filt) ==
+ParseWhens(t, els, i, x, whens, filt) ==
   IF els[i].name = "endcase"
   THEN (IF EndOk(els, i) THEN One([t |-> "case", x |-> x, whens |-> whens, else |-> <<>>], i + 1, filt) ELSE Bad)
   ELSE IF els[i].name = "else"
   THEN (IF els[i].toks # <<>> THEN Bad
-        ELSE LET b == ParseSeq(els, i + 1, {"endcase"}, FALSE) IN
+        ELSE LET b == ParseSeq(t, els, i + 1, {"endcase"}, FALSE) IN
              IF ~b.ok THEN b
              ELSE IF EndOk(els, b.i) THEN One([t |-> "case", x |-> x, whens |-> whens, else |-> b.body], b.i + 1, filt \/ b.filt) ELSE Bad)
   ELSE LET w == ArgsWhen(els[i].toks) IN
        IF ~w.ok THEN Bad
-       ELSE LET b == ParseSeq(els, i + 1, {"when", "else", "endcase"}, FALSE) IN
+       ELSE LET b == ParseSeq(t, els, i + 1, {"when", "else", "endcase"}, FALSE) IN
             IF ~b.ok THEN b
-            ELSE ParseWhens(els, b.i, x, Append(whens, [vals |-> w.vals, sep |-> ",", body |-> b.body]), filt \/ b.filt)
+            ELSE ParseWhens(t, els, b.i, x, Append(whens, [vals |-> w.vals, sep |-> ",", body |-> b.body]), filt \/ b.filt)
+
+RECURSIVE TrimEnd(_)
+TrimEnd(x) == IF Len(x) > 0 /\ SubSeq(x, Len(x), Len(x)) \in WS THEN TrimEnd(SubSeq(x, 1, Len(x) - 1)) ELSE x
+
+\* the body of a comment from element j: returns after its {% endcomment %}
+BlockOpeners == {"if", "unless", "for", "tablerow", "case", "capture", "ifchanged", "raw"}
+HeaderOk(el) ==
+  CASE el.name \in {"if", "unless"} -> ArgsCond(el.toks, el.name).ok
+    [] el.name \in {"for", "tablerow"} -> ArgsLoop(el.toks, el.name).ok
+    [] el.name = "case" -> ArgsCase(el.toks).ok
+    [] el.name = "capture" -> ArgsIdentOnly(el.toks, "capture").ok
+    [] OTHER -> el.toks = <<>>
+ParseComment(t, els, j) ==
+  IF j > Len(els) THEN Bad
+  ELSE LET el == els[j] IN
+       IF el.k # "tag" THEN ParseComment(t, els, j + 1)                         \* text, output, invalid liquid: skipped unparsed
+       ELSE IF el.name = "endcomment" THEN (IF EndOk(els, j) THEN One([t |-> "comment"], j + 1, FALSE) ELSE Bad)
+       ELSE IF el.name = "comment"
+            THEN (IF el.toks # <<>> THEN Bad
+                  ELSE LET n == ParseComment(t, els, j + 1) IN IF ~n.ok THEN n ELSE ParseComment(t, els, n.i))
+       ELSE IF el.name \in BlockOpeners /\ HeaderOk(el) THEN Unsupported     \* it would parse on, moving the shared cursor
+       ELSE ParseComment(t, els, j + 1)                                        \* any other tag: parsed, error ignored
 
 \* a block whose body is everything up to its end tag (tokens.parse_all)
-PlainBlock(els, i, hdr, endtag) ==
+PlainBlock(t, els, i, hdr, endtag) ==
   IF ~hdr.ok THEN Bad
-  ELSE LET b == ParseSeq(els, i + 1, {endtag}, FALSE) IN
+  ELSE LET b == ParseSeq(t, els, i + 1, {endtag}, FALSE) IN
        IF ~b.ok THEN b
        ELSE IF EndOk(els, b.i) THEN One(hdr.st @@ [body |-> b.body], b.i + 1, b.filt) ELSE Bad
 
-ParseStmt(els, i) ==
+ParseStmt(t, els, i) ==
   LET el == els[i] IN
   CASE el.k = "raw" -> One([t |-> "text", c |-> el.s], i + 1, FALSE)
     [] el.k = "invalid" -> Bad
     [] el.k = "expr" -> (LET o == ArgsOutput(el.chain) IN IF o.ok THEN One(o.st, i + 1, o.filt) ELSE Bad)
     [] OTHER ->
-       CASE el.name \in {"if", "unless"} -> ParseIf(els, i, el.name)
+       CASE el.name \in {"if", "unless"} -> ParseIf(t, els, i, el.name)
          [] el.name = "for" ->
               (LET h == ArgsLoop(el.toks, "for") IN
                IF ~h.ok THEN Bad
-               ELSE LET a == ParseSeq(els, i + 1, {"endfor", "else"}, FALSE) IN
+               ELSE LET a == ParseSeq(t, els, i + 1, {"endfor", "else"}, FALSE) IN
                     IF ~a.ok THEN a
                     ELSE IF a.stop = "endfor"
                          THEN (IF EndOk(els, a.i) THEN One(h.st @@ [body |-> a.body, else |-> <<>>], a.i + 1, a.filt) ELSE Bad)
                     ELSE IF els[a.i].toks # <<>> THEN Bad             \* for's else takes no arguments
-                    ELSE LET b == ParseSeq(els, a.i + 1, {"endfor"}, FALSE) IN
+                    ELSE LET b == ParseSeq(t, els, a.i + 1, {"endfor"}, FALSE) IN
                          IF ~b.ok THEN b
                          ELSE IF EndOk(els, b.i) THEN One(h.st @@ [body |-> a.body, else |-> b.body], b.i + 1, a.filt \/ b.filt) ELSE Bad)
-         [] el.name = "tablerow" -> PlainBlock(els, i, ArgsLoop(el.toks, "tablerow"), "endtablerow")
-         [] el.name = "capture" -> PlainBlock(els, i, ArgsIdentOnly(el.toks, "capture"), "endcapture")
-         [] el.name = "ifchanged" -> PlainBlock(els, i, ArgsNothing(el.toks, "ifchanged"), "endifchanged")
+         [] el.name = "tablerow" -> PlainBlock(t, els, i, ArgsLoop(el.toks, "tablerow"), "endtablerow")
+         [] el.name = "capture" -> PlainBlock(t, els, i, ArgsIdentOnly(el.toks, "capture"), "endcapture")
+         [] el.name = "ifchanged" -> PlainBlock(t, els, i, ArgsNothing(el.toks, "ifchanged"), "endifchanged")
          [] el.name = "case" ->
               (LET h == ArgsCase(el.toks) IN
                IF ~h.ok THEN Bad
-               ELSE LET pre == ParseSeq(els, i + 1, {"when", "else", "endcase"}, FALSE) IN
-                    IF ~pre.ok THEN pre ELSE ParseWhens(els, pre.i, h.st.x, <<>>, FALSE))
-         [] el.name \in {"raw", "comment"} -> Unsupported
+               ELSE LET pre == ParseSeq(t, els, i + 1, {"when", "else", "endcase"}, FALSE) IN
+                    IF ~pre.ok THEN pre ELSE ParseWhens(t, els, pre.i, h.st.x, <<>>, FALSE))
+         [] el.name = "raw" ->
+              \* escape_liquid(false): the source from the end of the raw tag to the end of the element before the first
+              \* argument-less {% endraw %}; a trimming end tag also trims what an inner "-%}" had swallowed into that text
+              (IF el.toks # <<>> THEN Bad
+               ELSE LET C == {j \in (i + 1)..Len(els) : els[j].k = "tag" /\ els[j].name = "endraw" /\ els[j].toks = <<>>} IN
+                    IF C = {} THEN Bad
+                    ELSE LET j == CHOOSE j \in C : \A k \in C : j <= k
+                             body == IF j = i + 1 THEN "" ELSE SubSeq(t, els[i + 1].b, els[j - 1].e - 1)
+                         IN One([t |-> "raw", c |-> IF els[j].trims THEN TrimEnd(body) ELSE body], j + 1, FALSE))
+         [] el.name = "comment" -> (IF el.toks # <<>> THEN Bad ELSE ParseComment(t, els, i + 1))
          [] OTHER -> (LET a == ArgsOf(el.name, el.toks) IN IF a.ok THEN One(a.st, i + 1, a.filt) ELSE Bad)
 
 \* liquid_core::parser::parse
 ParseTemplate(t) ==
-  LET r == ParseSeq(Elements(t, 1), 1, {}, TRUE) IN
+  LET r == ParseSeq(t, Elements(t, 1), 1, {}, TRUE) IN
   IF r.ok THEN [ok |-> TRUE, unsup |-> FALSE, prog |-> r.body, filt |-> r.filt] ELSE [ok |-> FALSE, unsup |-> r.unsup]
 =============================================================================
